@@ -113,6 +113,27 @@ fn same(law: &str, l: &View, r: &View, col_may_advance: bool) -> Result<(), Stri
   Ok(())
 }
 
+/// map() for both column settings asked of ONE object, in the given order (each setting once, so no
+/// cached answer is replayed): the per-byte attribution must be that of the fresh reference view
+fn same_on_one_object(law: &str, reference: &View, s: &Spec, columns_first: bool) -> Result<(), String> {
+  let obj = build(s);
+  let (pos, _) = positions(&reference.text);
+  for columns in [columns_first, !columns_first] {
+    let m = guard(|| obj.map(&opts(columns, false))).map_err(|p| format!("{law}: map(columns={columns}) on a shared object: {p}"))?;
+    let attr = attr_from_map(m.as_ref(), &reference.text, columns)?;
+    for i in 0..reference.text.len() {
+      let differs = if columns { attr[i] != reference.map_attr[1][i] } else { line_only_full(&attr[i]) != line_only_full(&reference.map_attr[0][i]) };
+      if differs {
+        return Err(format!(
+          "{law}: one object asked map(columns={columns_first}) then map(columns={}): columns={columns} byte {i} ({}:{}) of {:?} is attributed {:?}, the reference {:?}; mappings {:?}",
+          !columns_first, pos[i].0, pos[i].1, reference.text, attr[i], reference.map_attr[columns as usize][i], m.map(|m| m.mappings().to_string())
+        ));
+      }
+    }
+  }
+  Ok(())
+}
+
 fn cc(how: u8, children: Vec<Spec>) -> Spec {
   Spec::Concat { how, children }
 }
@@ -125,7 +146,8 @@ impl Prop for C13 {
      20 law instances per triple (regroupings: typed nested, boxed nested, add one by one, new; single child; \
      Raw('') / Original('') / empty ConcatSource as neutral elements at every position; CachedSource, Box, \
      ReplaceSource without and with only empty replacements), each side built fresh, compared on text and per-byte \
-     attribution from map() and from the chunk stream (per line for columns=false). Non-trivial: one of a, b ends \
+     attribution from map() and from the chunk stream (per line for columns=false); in addition every law side is built once \
+     and asked map(columns=true) then map(columns=false) (or the reverse; both orders for the CachedSource laws) on that one object. Non-trivial: one of a, b ends \
      without a line break and the next tree starts with a mapped chunk; distinct by hash of the case JSON".into()
   }
   fn legs(&self, _tier: Tier) -> Vec<Leg<Case>> {
@@ -152,13 +174,25 @@ impl Prop for C13 {
       ("ReplaceSource(flat, []) == flat", Spec::Replace { inner: Box::new(cc(0, vec![a.clone(), b.clone(), c.clone()])), repls: vec![] }),
       ("ReplaceSource(children, []) == flat", cc(0, vec![Spec::Replace { inner: Box::new(a.clone()), repls: vec![] }, b.clone(), Spec::Replace { inner: Box::new(c.clone()), repls: vec![] }])),
     ];
-    for (law, s) in &laws {
+    for (k, (law, s)) in laws.iter().enumerate() {
       same(law, &flat, &view(s)?, false)?;
+      if law.contains("Cached") {
+        same_on_one_object(law, &flat, s, true)?;
+        same_on_one_object(law, &flat, s, false)?;
+      } else {
+        same_on_one_object(law, &flat, s, k % 2 == 0)?;
+      }
     }
     // wrappers of a single tree
     let va = view(&a)?;
     same("new([a]) == a", &va, &view(&cc(0, vec![a.clone()]))?, false)?;
     same("Cached(a) == a", &va, &view(&Spec::Cached(Box::new(a.clone())))?, false)?;
+    same_on_one_object("Cached(a) == a", &va, &Spec::Cached(Box::new(a.clone())), true)?;
+    same_on_one_object("Cached(a) == a", &va, &Spec::Cached(Box::new(a.clone())), false)?;
+    // a cached child below a ReplaceSource / a CachedSource parent
+    let wrapped = Spec::Replace { inner: Box::new(cc(0, vec![Spec::Raw(String::new()), Spec::Cached(Box::new(a.clone()))])), repls: vec![] };
+    same_on_one_object("ReplaceSource([Raw(''), Cached(a)], []) == a", &va, &wrapped, true)?;
+    same_on_one_object("Cached(Cached(a)) == a", &va, &Spec::Cached(Box::new(Spec::Cached(Box::new(a.clone())))), true)?;
     same("boxed(a) == a", &va, &view(&Spec::Boxed(Box::new(a.clone())))?, false)?;
     // only empty replacements: everything equal, the column may be refined (see C06)
     let t = model_text(&a);
